@@ -95,6 +95,14 @@ def run(model, tier="quick"):
                                                              "total_liquidation_threshold"])
     ledgers(res, model, ["borrow", "withdraw", "change_collateral"])
     res.floor("obligations", len(res.obligations), 14)
+    # every Aave figure is read through the memo caches: their typestate (no stale read, no stale exit) is a premise here
+    from ..rules.cache import run_cache
+    if "R-CACHE" not in res.rules:
+        res.rules.append("R-CACHE")
+    res.units["aave_cache_writer_methods"] = run_cache(model, res, "AaveV3Market", res.prop)[0]
+    from .C10 import ledgers as _ledgers, views as _views
+    _ledgers(res, model, ["supply"])       # a top-up cannot change the collateral flag behind the health-factor check
+    _views(res, model)                     # collateral / debt values use each side's own index
     from ..rules.fresh import fresh_rule
     if "R-FRESH" not in res.rules:
         res.rules.append("R-FRESH")
